@@ -193,14 +193,14 @@ func c10Sync(c *Ctx) {
 		}
 		b0, b1 := core.FullStr(c0), core.FullStr(c1)
 		okSwitch = core.ExprStr(c0.List[0]) == "!present" && strings.Contains(b0, "current != nil") && strings.Contains(b0, "keysToDelete = append(keysToDelete, key)") &&
-			core.ExprStr(c1.List[0]) == "current == nil || current.merged != desiredBitmap" && strings.Contains(b1, "keysToUpdate = append(keysToUpdate, key)") && strings.Contains(b1, "valuesToUpdate = append(valuesToUpdate, desiredBitmap)")
+			core.NormCond(c1.List[0]) == core.NormPat("current == nil || current.merged != desiredBitmap") && strings.Contains(b1, "keysToUpdate = append(keysToUpdate, key)") && strings.Contains(b1, "valuesToUpdate = append(valuesToUpdate, desiredBitmap)")
 		return true
 	})
 	c.R.Checkf(D, "update-delete-unchanged", c.pos(f.Pos()), okSwitch, "an affected address with no remaining owner is deleted (if installed); one whose installed bitmap differs from the desired union is updated with that union; otherwise nothing is emitted")
 	// the desired bitmap: other owners' bitmaps OR the new snapshot's (when it lists the address and is non-zero)
 	if d := c.fn(D, "control", "domainRoutingTracker.desiredBitmapForKeyLocked"); d != nil {
 		full := core.FullStr(d.Body)
-		ok := strings.Contains(full, "existingOwnerKey == ownerKey") && strings.Contains(full, "orDomainRoutingBitmap(&bitmap, existingBitmap)") && strings.Contains(full, "orDomainRoutingBitmap(&bitmap, snapshot.bitmap)") && strings.Contains(full, "isZeroDomainRoutingBitmap(snapshot.bitmap)")
+		ok := core.HasCond(d.Body, "existingOwnerKey == ownerKey") && strings.Contains(full, "orDomainRoutingBitmap(&bitmap, existingBitmap)") && strings.Contains(full, "orDomainRoutingBitmap(&bitmap, snapshot.bitmap)") && strings.Contains(full, "isZeroDomainRoutingBitmap(snapshot.bitmap)")
 		c.R.Checkf(D, "desired-is-union", c.pos(d.Pos()), ok, "the desired bitmap is the OR over the other owners of the address plus the new snapshot when it lists the address with a non-zero bitmap")
 	}
 }
